@@ -680,6 +680,12 @@ inline void post(Kind k, const void* obj)
         if (c.inj_p) stress_delay(c);
     }
 }
+// serial engine: is the virtual thread `vtid` parked in a condition-variable wait right now? (The caller holds the token, so
+// the answer stays true until the caller itself reaches a scheduling point.)
+inline bool serial_parked_in_cv_wait(int vtid)
+{
+    return rt.engine.load(std::memory_order_relaxed) == E_SERIAL && vtid >= 0 && vtid < rt.sn && rt.sth[vtid].st == SThread::BLK_CV;
+}
 inline void user_point() { pre(U_POINT, nullptr); }
 inline void harness_point() { pre(H_POINT, nullptr); }
 
